@@ -551,6 +551,8 @@ def weave_template(tmpl_path, repo=None, freeze=False, sig_only=()):
         u.norm_sha = sha(cur_text)
         u.rules_applied = applied
         u.identical_to_frozen = identical
+        # closures that the frozen text did not have carry no specification (Verus infers none): Verus is blind to their results
+        u.new_closures = max(0, sum(1 for t in texts(cur) if t == '|') - sum(1 for t in texts(base) if t == '|'))
         u.ghost_runs = len(ins)
         u.ghost_forms = forms
         u.kind = spec.kind
